@@ -193,7 +193,7 @@ class IOBase(Communicator):
             now = time.time()
             if now >= self._last_connect_attempt + self.pollinterval:
                 # we do not try to reconnect more often than pollinterval
-                _last_connect_attempt = now
+                self._last_connect_attempt = now
                 if self.read_is_connected():
                     return
             raise SilentError('disconnected') from None
